@@ -13,6 +13,13 @@
   (3) ALIAS PROBES: the real functions transcribed in Model/AliasFlows.v are called with the real configuration
       objects as sentinels; which locals ARE pre-existing objects is compared with the typing the ownership
       checker derives (chk_probe / chk_probe_deep evaluated by coqc).
+  (5) ATTRIBUTE CENSUS (harness/c20_order.py): every object reachable from the Server object - session manager
+      configuration, token handlers, cookie handler, claims interface, scopes handler, authentication methods, helper
+      objects of other packages kept on them - attribute by attribute, around EVERY request of (1), (2) and (6); only
+      the request-state containers listed (and justified) in c20_order.REQUEST_STATE may change.
+  (6) ORDER EXPERIMENTS (harness/c20_order.py): providers issuing JWT access / refresh tokens, clients with differing
+      per-client lifetimes / algorithms / scopes; a client's probe flow after random prefixes of OTHER clients' flows
+      equals, field by field (incl. the decoded JWT claims, exp - iat), the same flow on a fresh provider.
 """
 import copy
 import json
@@ -30,6 +37,10 @@ RULE = ("batches of 10-25 requests drawn from: authorization (code / hybrid / im
         "its own policy), PAR, garbage tokens, ticks; 4 clients with per-client usage rules / add_claims / revocation / "
         "userinfo policy / resource indicators; snapshot before and after every request; RP batches through the real "
         "services (bearer_header / bearer_body -> find_token); probe flows replayed on fresh providers; "
+        "attribute census of every object reachable from the Server (token handlers, cookie handler, session manager configuration, "
+        "authentication methods ...) around every request; order experiments on providers with JWT access / refresh tokens and 4 clients "
+        "with differing lifetimes / ID Token algorithms / scopes: a client's probe flow after 2-4 flows of other clients (success and "
+        "error kinds) versus the same flow on a fresh provider, field by field with decoded JWT claims; "
         "non-trivial = a batch with at least one successful token response and one error response")
 ASSUMPTIONS = ["copy.deepcopy allocates new objects only and the copy is closed under references (the specification used by the step relation)",
                "the canonical snapshot sees all static state: module-level UPPERCASE names, Message class tables, endpoint / context / client attributes reachable through __dict__",
@@ -719,6 +730,16 @@ def run_provider(ctx, rng, reb, oidc, nbatches, label):
     clock.now = 1_700_000_000
     g0 = snapshot_globals()
     s0 = snapshot_provider(server, clients)
+    import c20_order
+    cen = [c20_order.census(server)]
+
+    def census_check(what, rec):
+        c1 = c20_order.census(server)
+        if c1 != cen[0]:
+            d = c20_order.census_diff(cen[0], c1)
+            ctx.violation(c20_order.SIG_CENSUS + ":" + c20_order.census_key(d),
+                          "%s provider: %s changed a long-lived object: %s" % (label, what, d), rec)
+            cen[0] = c1
     uniq = 0
     for b in range(nbatches):
         n = rng.randint(10, 25)
@@ -742,6 +763,7 @@ def run_provider(ctx, rng, reb, oidc, nbatches, label):
                               "%s provider: request %r (answered %s) changed static state: %s" % (label, op, json.dumps(o)[:120], what),
                               dict(rec, offending_request=op))
                 g0, s0 = g1, s1
+            census_check("request %r (answered %s)" % (op, json.dumps(o)[:120]), dict(rec, offending_request=op))
         ctx.case_seen({"provider": label, "batch": b, "ops": rec["ops"], "outs": rec["outs"]}, okt and err)
         # history independence: every client's probe flow, on the long-lived provider
         for c in clients:
@@ -759,6 +781,7 @@ def run_provider(ctx, rng, reb, oidc, nbatches, label):
                 ctx.violation(SIG_STATIC + ":probe", "%s provider: probe flow of %s changed static state: %s" % (label, c, what),
                               {"provider": label, "client": c})
                 g0, s0 = g1, s1
+            census_check("the probe flow of %s" % c, {"provider": label, "client": c, "after_batches": b + 1})
     return server
 
 
@@ -891,6 +914,8 @@ def run(ctx):
         s_oidc = run_provider(ctx, rng, reb, True, 8 if q else 80, "oidc")
         run_provider(ctx, rng, reb, False, 4 if q else 40, "oauth2")
         run_rp(ctx, rng, 5 if q else 60)
+        import c20_order
+        c20_order.run_order_experiments(ctx, rng, reb, q)
         g0 = snapshot_globals()
         s0 = snapshot_provider(s_oidc, CLIENTS)
         shallow, deep = alias_probes(ctx, s_oidc)
